@@ -1,6 +1,6 @@
 import SaModel.Build.Dec
 import SaModel.Spec.WF
-import SaModel.Lemmas.C03Finish
+import SaModel.Lemmas.C03Assemble
 /-
 C03 — every produced array is a well-formed Arrow array of the declared field.
 
